@@ -309,6 +309,11 @@ def solve_pair(iname, sysi, wv, idx, cfl=0.3, generic=False):
             b = cls(meshm, discm).solve(fm, cfl, ts, stop={"maxit": 2, "tottime": 1e30})
             a.extend(cls(mesh, disc).solve(f, cfl, stop={"maxit": 2}))
             b.extend(cls(meshm, discm).solve(fm, cfl, stop={"maxit": 2}))
+            # and with every cell advanced by its own step (the mirror image of a local-time-step run is the local-time-step run of the mirror image)
+            # (not where a local step is infinite - Burgers cells at rest: the known finding recorded under C03)
+            if np.all(np.isfinite(np.asarray(disc.calc_timestep(f, cfl), float))):
+                a.extend(cls(mesh, disc).solve(f, cfl, stop={"maxit": 2}, directives={"dtlocal": True}))
+                b.extend(cls(meshm, discm).solve(fm, cfl, stop={"maxit": 2}, directives={"dtlocal": True}))
     solve_pair.last = (disc, f, cls, mesh)
     return kind, par, a, b, cls
 
@@ -325,6 +330,20 @@ def check_reflect_solve(iname, sysi, wv, idx, res=None, generic=False):
         res.transitions += 2
     impl = space.is_implicit(cls)
     tol = 1e-6 * 2 if impl else 512 * EPS
+
+    def kink_on_the_way():
+        # the linearised implicit classes differentiate the space operator by one-sided finite differences: where the operator has
+        # a kink (certified here on the real rhs: forward and backward difference Jacobians disagree) mirror symmetry cannot hold;
+        # looked for at the initial state and at the states after the first iteration (global and local steps)
+        disc0, f0, cls0, mesh0 = solve_pair.last
+        if nonsmooth_at(disc0, f0):
+            return True
+        for direc in ({}, {"dtlocal": True}):
+            with np.errstate(all="ignore"):
+                q1 = cls0(mesh0, disc0).solve(f0, 0.3, stop={"maxit": 1}, directives=direc)[-1]
+            if all(np.all(np.isfinite(d)) for d in q1.data) and nonsmooth_at(disc0, q1):
+                return True
+        return False
     if len(a.solutions) != len(b.solutions):
         return [(site + "/snapshots", "different number of returned fields %d vs %d" % (len(a.solutions), len(b.solutions)))]
     for ga, gb in zip(a.solutions, b.solutions):
@@ -338,7 +357,8 @@ def check_reflect_solve(iname, sysi, wv, idx, res=None, generic=False):
             break
         # the time after two iterations depends on the state after the first one: same tolerance as the data
         if not abs(ga.time - gb.time) <= (tol if impl else 64 * EPS) * max(abs(ga.time), 1e-300):
-            out.append((site + "/time", "times %r vs %r" % (ga.time, gb.time)))
+            s_ = "C13/reflect/solve/implicit-classes/one-sided-fd-jacobian-at-kink-of-the-operator" if (impl and kink_on_the_way()) else site + "/time"
+            out.append((s_, "%s %s %s %s widths %r data %r: times %r vs %r" % (iname, mname, flux, rname, wv, idx, ga.time, gb.time)))
             break
         for q in range(len(par)):
             want = par[q] * ga.data[q][::-1]
@@ -348,16 +368,7 @@ def check_reflect_solve(iname, sysi, wv, idx, res=None, generic=False):
                 res.evals += 1
                 res.worst("reflect-solve/" + ("implicit" if impl else "explicit"), err / tol)
             if not err <= tol:
-                tie = False
-                if impl:
-                    # the linearised implicit classes differentiate the space operator by one-sided finite differences: where the operator has
-                    # a kink (certified here on the real rhs: forward and backward difference Jacobians disagree) mirror symmetry cannot hold
-                    disc0, f0, cls0, mesh0 = solve_pair.last
-                    tie = nonsmooth_at(disc0, f0)
-                    if not tie:
-                        with np.errstate(all="ignore"):
-                            q1 = cls0(mesh0, disc0).solve(f0, 0.3, stop={"maxit": 1})[-1]
-                        tie = nonsmooth_at(disc0, q1)
+                tie = impl and kink_on_the_way()
                 s_ = "C13/reflect/solve/implicit-classes/one-sided-fd-jacobian-at-kink-of-the-operator" if tie else site + "/eq%d" % q
                 out.append((s_, "%s %s %s %s widths %r data %r: mirror solution differs from the mirrored solution by %.3g (t=%r)" % (
                     iname, mname, flux, rname, wv, idx, err, ga.time)))
